@@ -1,6 +1,7 @@
 //! C13 — polynomial helpers against the definitional reference R2, exhaustively over all
 //! coefficient vectors of length ≤ 4 (thorough: ≤ 8, extension fields ≤ 5) over a four-letter alphabet, for every
-//! supported field and extension.
+//! supported field and extension; plus, for the division helpers (linear in the dividend), every unit
+//! vector and one dense vector of every length up to 20 (thorough 36) against every divisor x^a - b.
 
 use mck::{json, Args, Report, Violation};
 use refm::poly as r2;
@@ -170,6 +171,49 @@ fn sweep<E: FieldElement>(name: &str, alpha: &[E], maxlen: usize, pair_len: usiz
                 let mut q2 = p.clone();
                 if guard!("syn_div_in_place", k2.clone(), polynom::syn_div_in_place(&mut q2, a, *b)).is_some() && q2 != expect {
                     s.fail(format!("wrong:{name}:syn_div_in_place"), k2.clone(), format!("{name} syn_div_in_place({p:?}, {a}, {b:?}) = {q2:?}, long division gives {expect:?}"));
+                }
+            }
+        }
+    }
+    // ---- long dividends: synthetic division is linear in the dividend, so for every (length, a, b)
+    // the unit vectors plus one dense vector decide every linear implementation; lengths reach well
+    // past 2a so that block-wise / chunked implementations see partial blocks at either end
+    let long = 4 * maxlen + 4;
+    for len in 2..=long {
+        let mut basis: Vec<Vec<E>> = (0..len)
+            .map(|i| {
+                let mut v = vec![E::ZERO; len];
+                v[i] = E::ONE;
+                v
+            })
+            .collect();
+        basis.push((0..len).map(|i| alpha[(i * i + 1) % alpha.len()] + E::from((3 * i + 1) as u32)).collect());
+        for a in 1..len {
+            let mut divisor = vec![E::ZERO; a + 1];
+            divisor[a] = E::ONE;
+            for b in alpha.iter().filter(|b| **b != E::ZERO) {
+                divisor[0] = -*b;
+                for p in &basis {
+                    s.evals += 1;
+                    let (q, _) = r2::divrem(&w(p), &w(&divisor), &z);
+                    let expect = padded(&unw(&q), len);
+                    let k2 = format!("{name}/long/len={len}/p={p:?}/a={a}/b={b:?}");
+                    if let Some(got) = guard!("syn_div", k2.clone(), polynom::syn_div(p, a, *b)) {
+                        if got != expect {
+                            s.fail(format!("wrong:{name}:syn_div"), k2.clone(), format!("{name} syn_div({p:?}, {a}, {b:?}) = {got:?}, long division gives {expect:?}"));
+                        }
+                    }
+                    let mut q2 = p.clone();
+                    if guard!("syn_div_in_place", k2.clone(), polynom::syn_div_in_place(&mut q2, a, *b)).is_some() && q2 != expect {
+                        s.fail(format!("wrong:{name}:syn_div_in_place"), k2.clone(), format!("{name} syn_div_in_place({p:?}, {a}, {b:?}) = {q2:?}, long division gives {expect:?}"));
+                    }
+                    if r2::degree(&w(p)) >= a {
+                        if let Some(got) = guard!("div", k2.clone(), polynom::div(p, &divisor)) {
+                            if !r2::polys_equal(&w(&got), &q) {
+                                s.fail(format!("wrong:{name}:div"), k2.clone(), format!("{name} div({p:?}, x^{a} - {b:?}) = {got:?}, long division gives {:?}", unw(&q)));
+                            }
+                        }
+                    }
                 }
             }
         }
